@@ -142,7 +142,7 @@ def run(ctx, info):
         jobs.append({"opt": nm, "cfg": {"population_size": P2, "max_cycles": 2, "fitness_error": None}, "first_cfg": {"population_size": P1, "max_cycles": 2, "fitness_error": None},
                      "sequence": [{"task": search.cont_task(obj="sphere", seed=r.randint(0, 10**6))}], "task": search.cont_task(obj="sphere", seed=r.randint(0, 10**6))})
     from .. import edgesuite
-    edgesuite.run(ctx, "size", focus=sorted(focus), by_design=by_design)
+    edgesuite.run(ctx, "size", info=info, focus=sorted(focus), by_design=by_design)
     obs = search.run_jobs(jobs)
     n_ok = 0
     invalid_cfg = 0
